@@ -39,3 +39,15 @@ func VerifC19Bloom(rs *Receipts) *bloom.BloomFilter {
 	}
 	return (*bloom.BloomFilter)(rs.bloom)
 }
+
+// VerifC19UnmarshalBody runs the real body decoder only (no event slice is allocated): the harness uses the
+// returned event count to skip inputs on which the full decoder would try to allocate billions of events.
+func VerifC19UnmarshalBody(data []byte, v2 bool) (evCount uint32) {
+	var r Receipt
+	if v2 {
+		_, evCount = r.unmarshalBodyV2(data)
+	} else {
+		_, evCount = r.unmarshalBody(data)
+	}
+	return evCount
+}
